@@ -67,7 +67,9 @@ def family_decl(tier):
             sites = ["schema", "item0", "lk", "cuts"] + (["mids"] if placement == 2 else [])
             for decl in DECLS_1:
                 if tier != "quick":
-                    subsets = [c for k in range(1, len(sites) + 1) for c in itertools.combinations(sites, k)]
+                    # (every subset of the sites - 11 088 schemas - did not finish 5 % of its shards in 15 minutes on
+                    # 16 cores: the thorough tier takes all sites on plus every single site at placement 1, all on at 2)
+                    subsets = [tuple(sites)] + ([(x,) for x in sites] if placement == 1 else [])
                 elif placement == 1:
                     subsets = [tuple(sites)] + ([("item0",)] if decl == "base" else [])
                 else:
@@ -78,9 +80,9 @@ def family_decl(tier):
         if len(items) != 2:
             continue
         # quick: the pairs of keys / multikeys (their containers hold no section slot: small state spaces)
-        if tier == "quick" and not (is_keyish(items[0]) and is_keyish(items[1])):
+        if not (is_keyish(items[0]) and is_keyish(items[1])):
             continue
-        for placement in ((1,) if tier == "quick" else (1, 2)):
+        for placement in (1,):
             sites = ["schema", "item0", "item1", "lk", "cuts"] + (["mids"] if placement == 2 else [])
             for decl in (DECLS_2[:1] if tier == "quick" else DECLS_2):
                 fam.append((lab, items, placement, tuple(sites), 3, decl))
@@ -1202,8 +1204,9 @@ def run(tier):
                     "quick: 1 item x {base: placements 1, 2, all sites on + placement 1 item alone; base-two-steps, "
                     "base+own-keytype: placement 1, all sites on}; 2 items, both keys / multikeys: split, placement 1, "
                     "all sites on" if tier == "quick" else
-                    "1 item x {base, base-two-steps, base+own-keytype} x placements 1, 2 x every subset of sites; "
-                    "every 2 items x {split, base, split+own-keytype} x placements 1, 2, all sites on"),
+                    "1 item x {base, base-two-steps, base+own-keytype} x {placement 1: all sites on and every single "
+                    "site; placement 2: all sites on}; 2 items, both keys / multikeys x {split, base, split+own-keytype}, "
+                    "placement 1, all sites on"),
                 "loader_kinds": list(LOADER_KINDS),
                 "fault_lines": [l for _, l in FAULT_LINES],
                 "prior_texts": ("ancestor k=1; each fault line behind the whole text: sections closed / innermost "
